@@ -188,7 +188,9 @@ package core
 //@   ensures imp(result == nil, coreScanInv(core))
 
 //@ func (*JApiCore).next(core, lexeme)
-//@   property C01,C09
+//@   property C01,C09,C19
+// every keyword the scanner delivers becomes the pending directive only after the ban check (C19)
+//@   ensures[C19,@ban-checked] imp(result == nil && lexeme.type_ == scanner.Keyword, core.currentDirective != nil && !banned(core, core.currentDirective.type_))
 //@   requires coreScanInv(core) && lexArgOK(core, lexeme.file, lexeme.begin, lexeme.end, lexeme.type_)
 //@   modifies treeMod(core), core.scannersStack.includeTracers, core.scannersStack.includeTracers[:],
 //@            allfield(directive.Directive, Annotation), allfield(directive.Directive, BodyCoords), allfield(directive.Directive, HasExplicitContext),
